@@ -2,6 +2,6 @@ import sys, os
 sys.path.insert(0, os.path.dirname(os.path.abspath(__file__)))
 import gen
 u = sys.argv[1]
-g = gen.Generator().generate(u)
+g = gen.Generator(repo=os.environ.get("VERIF_REPO", "/repo")).generate(u)
 os.makedirs('/verif/.work', exist_ok=True)
 open('/verif/.work/%s.rs' % u, 'w').write(g.text())
